@@ -17,13 +17,13 @@ func init() {
 	zzverif.Register("VerifC04JunkLong", VerifC04JunkLong)
 }
 
-func VerifC04DocLayout() { fCheckC04(fGenLayout(false)) }
-func VerifC04DocLayoutLong() { fCheckC04(fGenLayout(true)) }
-func VerifC04DocAmounts() { fCheckC04(fGenAmounts(false)) }
+func VerifC04DocLayout()      { fCheckC04(fGenLayout(false)) }
+func VerifC04DocLayoutLong()  { fCheckC04(fGenLayout(true)) }
+func VerifC04DocAmounts()     { fCheckC04(fGenAmounts(false)) }
 func VerifC04DocAmountsLong() { fCheckC04(fGenAmounts(true)) }
-func VerifC04DocText() { fCheckC04(fGenText(false)) }
-func VerifC04DocTextLong() { fCheckC04(fGenText(true)) }
-func VerifC04DocFormats() { fCheckC04(fGenFormats(false)) }
+func VerifC04DocText()        { fCheckC04(fGenText(false)) }
+func VerifC04DocTextLong()    { fCheckC04(fGenText(true)) }
+func VerifC04DocFormats()     { fCheckC04(fGenFormats(false)) }
 func VerifC04DocFormatsLong() { fCheckC04(fGenFormats(true)) }
-func VerifC04Junk() { fCheckC04(fGenJunk(false)) }
-func VerifC04JunkLong() { fCheckC04(fGenJunk(true)) }
+func VerifC04Junk()           { fCheckC04(fGenJunk(false)) }
+func VerifC04JunkLong()       { fCheckC04(fGenJunk(true)) }
